@@ -1,6 +1,7 @@
 package main
 
 import (
+	"encoding/json"
 	"fmt"
 	"os"
 	"path/filepath"
@@ -121,6 +122,7 @@ func checkC06(c *Ctx) {
 	}
 	if c.runSemFamily("FamFaults", cfg, o, 60*time.Minute) != nil {
 		c.replaySemCLI(c.lastFile, o, 1, 8*time.Second)
+		c.traceValidate("faults", c.lastFile, 1, 1200)
 	}
 	c.cov("exhaustive", true)
 	c.cov("rule", "FamFaults: each of 23 expression faults (undefined read/assign, operand type, zero divisor, negative shift, index out of range/negative/fractional/non-array, missing property, property of non-object, non-callable, arity, failing built-ins) at each of 37 syntactic positions, plus redeclaration and stray break/continue/return at statement positions, x line paddings; each program prints before the fault and afterwards tries to print, prompt/read and read the clock, also inside while(true)/for(;;) loops; every program is replayed in-process (ordering of effects through hooks) and through the executable (exit status, streams)")
@@ -261,4 +263,26 @@ func checkC07(c *Ctx) {
 func init() {
 	checks["C07"] = checkC07
 	replayers["C07"] = replaySemCase(&SemOpts{IgnoreOut: true, RunUnspec: true})
+}
+
+// traceValidate records the real runs of (a sample of) the programs of a family file and validates them against
+// TraceSem (direction 2: code -> specification).
+func (c *Ctx) traceValidate(name, path string, every, max int) {
+	var recs []*SemRec
+	k := 0
+	forEachLine(path, func(line []byte) error {
+		var rec SemRec
+		if json.Unmarshal(line, &rec) != nil || rec.Status == "fuel" {
+			return nil
+		}
+		k++
+		if (k+c.Seed)%every == 0 && len(recs) < max {
+			recs = append(recs, &rec)
+		}
+		return nil
+	})
+	runs := c.recordTraces(recs)
+	n := c.validateTraces(name, runs)
+	tv, _ := c.Ev.Coverage["trace_validation"].([]interface{})
+	c.Ev.Coverage["trace_validation"] = append(tv, map[string]interface{}{"family": name, "recorded_runs": len(runs), "accepted_by_TraceSem": n})
 }
